@@ -17,6 +17,14 @@ type CustomOpts struct {
 	WrapLevel string // cli | conv
 	Fallible  bool   // force at least one fallible hook
 	MaxFaults int
+	// ForceKind, when set, is the hook kind of the first pair (all kinds appear in every corpus that way); the
+	// pseudo kinds extendUnexported / extendUnexportedCtx need Format "variables"
+	ForceKind string
+}
+
+// HookKinds lists every hook kind (for ForceKind), pseudo kinds included.
+func HookKinds() []string {
+	return append(append([]string{}, hookKinds...), "extendUnexported", "extendUnexportedCtx")
 }
 
 var hookKinds = []string{"extend", "extendExt", "extendErr", "extendCtx", "extendConv", "extendRegex", "method", "methodErr", "mapFunc", "mapFuncErr", "mapNoSource", "underlying", "underlyingMethod", "extendErrCtx", "extendSame", "extendExtCtxRegex", "delegate", "delegateErr", "mapWhole", "mapWholePtr", "underlyingErr", "basicErr", "srcMethodCtx"}
@@ -54,7 +62,16 @@ func CustomCase(r *rand.Rand, name string, o CustomOpts) *Case {
 	npairs := 1 + r.Intn(3)
 	for i := 1; i <= npairs; i++ {
 		kind := hookKinds[r.Intn(len(hookKinds))]
-		if o.Fallible && i == 1 {
+		forcePriv, forcePrivCtx := false, false
+		if o.ForceKind != "" && i == 1 {
+			kind = o.ForceKind
+			switch kind {
+			case "extendUnexported":
+				kind, forcePriv = "extend", true
+			case "extendUnexportedCtx":
+				kind, forcePriv, forcePrivCtx = "extend", true, true
+			}
+		} else if o.Fallible && i == 1 {
 			kind = []string{"extendErr", "methodErr", "mapFuncErr", "extendErrCtx", "delegateErr", "underlyingErr", "basicErr", "srcMethodCtx"}[r.Intn(7)]
 		}
 		if o.WrapLevel == "meth" {
@@ -115,6 +132,16 @@ func CustomCase(r *rand.Rand, name string, o CustomOpts) *Case {
 				fallible, needCtxB = true, true
 				roles = []string{"source", "ctx"}
 			case "extendCtx":
+				if o.Format == "variables" && r.Intn(2) == 0 {
+					// unexported function of the output package with a context declared in its doc comment
+					priv := "ext" + fname[3:] + "ctxpriv"
+					fmt.Fprintf(sb, "// goverter:context ctx\nfunc %s(ctx ty.CtxA, a ty.HA%d) ty.HB%d {\n\treturn %s\n}\n\nfunc %s(ctx ty.CtxA, a ty.HA%d) ty.HB%d { return %s(ctx, a) }\n\n", priv, i, i, hookBody(priv, " + \"|\" + ctx.ID"), fname, i, i, priv)
+					line = "extend " + priv
+					kindsUsed["extendUnexportedCtx"] = true
+					needCtxA = true
+					roles = []string{"ctx", "source"}
+					break
+				}
 				fmt.Fprintf(sb, "// goverter:context ctx\nfunc %s(ctx ty.CtxA, a ty.HA%d) ty.HB%d {\n\treturn %s\n}\n\n", fname, i, i, hookBody(fname, " + \"|\" + ctx.ID"))
 				needCtxA = true
 				roles = []string{"ctx", "source"}
@@ -122,7 +149,17 @@ func CustomCase(r *rand.Rand, name string, o CustomOpts) *Case {
 				fmt.Fprintf(sb, "func %s(c Converter, a ty.HA%d) ty.HB%d {\n\t_ = c\n\treturn %s\n}\n\n", fname, i, i, hookBody(fname, ""))
 				roles = []string{"conv", "source"}
 			default:
-				if kind == "extend" && o.Format == "variables" && r.Intn(2) == 0 {
+				if kind == "extend" && o.Format == "variables" && (forcePriv || r.Intn(2) == 0) {
+					if forcePrivCtx || (!forcePriv && r.Intn(2) == 0) {
+						// ... with a context declared in its doc comment
+						priv := "ext" + fname[3:] + "ctxpriv"
+						fmt.Fprintf(sb, "// goverter:context ctx\nfunc %s(ctx ty.CtxA, a ty.HA%d) ty.HB%d {\n\treturn %s\n}\n\nfunc %s(ctx ty.CtxA, a ty.HA%d) ty.HB%d { return %s(ctx, a) }\n\n", priv, i, i, hookBody(priv, " + \"|\" + ctx.ID"), fname, i, i, priv)
+						line = "extend " + priv
+						kindsUsed["extendUnexportedCtx"] = true
+						needCtxA = true
+						roles = []string{"ctx", "source"}
+						break
+					}
 					// an UNEXPORTED function of the output package (the variables format emits into conv): accessible;
 					// the glue reaches it through an exported wrapper
 					priv := "ext" + fname[3:] + "priv"
